@@ -116,6 +116,45 @@ def rule_R20_1(ctx):
     return r
 
 
+def _r20_2_entry(prog, r, f):
+    """R20.2 for a declare written with the map's entry API."""
+    import inline
+    ents = [c for c in f.calls() if anchors.scope_map_path(prog) in (c.res_full or "") and (c.res or "").endswith("::entry")]
+    fv = inline.view(prog, f)
+    last = [c for c in fv.calls() if (c.res or "").split("::")[-1] in ("last", "last_mut")]
+    r.inst("%s: entry API, %d entry call(s), %d `last` calls" % (f.path, len(ents), len(last)))
+    silent = [c for c in f.calls() if "Entry" in (c.res_full or "") and (c.res or "").split("::")[-1] in
+              ("or_insert", "or_insert_with", "or_insert_with_key", "or_default", "and_modify", "insert_entry")]
+    ok = len(ents) == 1 and not silent
+    if ok:
+        e = ents[0]
+        info = f.switch_info(e.target) if e.target is not None and f.term(e.target)["k"] == "switch" else None
+        ok = bool(info) and info["kind"] == "discr" and "Entry<" in info["enum"]
+        if ok:
+            cases = dict(info["cases"])
+            occ_t = cases.get("Occupied", info["otherwise"])
+            vac_t = cases.get("Vacant", info["otherwise"])
+            vins = [c for c in f.calls() if "VacantEntry" in (c.res_full or "") and (c.res or "").endswith("::insert")]
+            occ_r = f.reach_from(occ_t, avoid=[vac_t])
+            errs = [1 for bb, ii, pl, kd, ao, sp in f.aggregates("std::result::Result", "Err") if bb in occ_r]
+            writes = [c for c in f.calls() if c.bb in occ_r and "OccupiedEntry" in (c.res_full or "")
+                      and (c.res or "").split("::")[-1] in ("insert", "get_mut", "into_mut", "remove", "remove_entry", "replace_entry")]
+            ok = occ_t != vac_t and bool(vins) and all(f.dominates(vac_t, c.bb) for c in vins) and bool(errs) and not writes
+    if ok:
+        r.ok()
+    else:
+        r.fail("%s | insert not guarded by absent-lookup" % f.path,
+               "the entry-API declare must insert only into a vacant entry "
+               "and answer an occupied one with an error, without touching it",
+               where=ents[0].loc if ents else None)
+    if last:
+        r.ok()
+    else:
+        r.fail("%s | not-innermost-scope" % f.path,
+               "declare does not address the last (innermost) scope")
+    return r
+
+
 def rule_R20_2(ctx):
     prog = ctx.prog
     r = RuleResult("R20.2", "declare refuses a name already in the innermost "
@@ -126,6 +165,13 @@ def rule_R20_2(ctx):
         cands = [g for g in prog.hand_fns() if g.module.startswith(SMOD[0])
                  and any("HashMap" in (c.res_full or "") and (c.res or "").endswith("::insert") for c in g.calls())]
         f = cands[0] if cands else None
+    if f is None:
+        # entry API: `match map.entry(name) { Occupied(e) => Err(..), Vacant(e) => e.insert(..) }`
+        ecands = [g for g in prog.hand_fns() if g.module.startswith(SMOD[0]) and not g.is_closure
+                  and any(anchors.scope_map_path(prog) in (c.res_full or "") and (c.res or "").endswith("::entry")
+                          for c in g.calls())]
+        if ecands:
+            return _r20_2_entry(prog, r, ecands[0])
     if f is None:
         r.anchor_missing("the function inserting into a scope map")
         return r
